@@ -32,6 +32,10 @@ func init() {
 			"the same neighbour name are resolved first-come in map order (information only).",
 		Run: runC14,
 		Mutants: []Mutant{
+			{Name: "session-key-without-interface", File: "internal/bgp/frr/frr.go",
+				Old: "\tpeer := s.PeerAddress\n\tif s.PeerInterface != \"\" {\n\t\tpeer = s.PeerInterface\n\t}\n", New: "\tpeer := s.PeerAddress\n", Expect: "SESSION-KEY"},
+			{Name: "routers-keyed-by-source-address", File: "internal/bgp/frr/frr.go",
+				Old: "\t\trouterName := RouterName(s.RouterID.String(), s.MyASN, s.VRFName)", New: "\t\trouterName := RouterName(s.SourceAddress.String(), s.MyASN, s.VRFName)", Expect: "ROUTER-KEY"},
 			{Name: "neighbour-properties-recreated-for-every-session", File: "internal/bgp/frr/frr.go",
 				Old: "\t\tproperties := rout.neighborsProperties[neighborName]\n",
 				New: "\t\trout.neighborsProperties[neighborName] = &neighborProperties{CommunitiesV4: sets.New[string](), CommunitiesV6: sets.New[string](), LargeCommunitiesV4: sets.New[string](), LargeCommunitiesV6: sets.New[string](), LocalPrefsV4: sets.New[uint32](), LocalPrefsV6: sets.New[uint32]()}\n\t\tproperties := rout.neighborsProperties[neighborName]\n", Expect: "entry-created-only-when-absent"},
@@ -82,6 +86,8 @@ func init() {
 }
 
 func runC14(p *chk.Prog, r *chk.Report) {
+	routerKeyRule(p, r, frrPkg, "createConfig")
+	sessionKeyRule(p, r, frrPkg)
 	scratchRule(p, r, frrPkg)
 	ts := c14Templates(p, r)
 	if ts != nil {
@@ -308,6 +314,10 @@ func c14Structure(p *chk.Prog, r *chk.Report, ts *chk.TemplateSet) {
 			ts.DotAsField(tn, "neighbor")
 		}
 	}
+	// a piece of a template moved into a template of its own and called with a record built in place is read where it is
+	// called; the templates of the confirmed tree keep their names for the rules
+	ts.InlineRecordCalls(map[string]bool{"bfdprofile": true, "communityfilter": true, "largecommunityfilter": true, "localpreffilter": true,
+		"neighborenableipfamily": true, "neighborfilters": true, "neighborsession": true})
 	deny := r.Rule("TPL-DENY", "G template structure", "in template neighborfilters: there is a `route-map {{ID}}-in deny` entry; every `route-map {{ID}}-out permit` line is immediately followed by a `match ip|ipv6 address prefix-list` line (no unconditional permit); an entry that has a `set` line ends with `on-match next`, an entry without `set` does not; the `deny any` prefix-list lines are inside `if not .neighbor.HasV4Advertisements` / `HasV6Advertisements`", 10)
 	names := r.Rule("TPL-NAMES", "G template structure", "every prefix-list referenced by a `match` line is named by one of the naming functions applied to the template's neighbour, and a definition line `<family> prefix-list {{same function …}} …` exists (directly or through a variable assigned from that function) in neighborfilters or the filter templates it calls; the `match ip` / `match ipv6` keyword of a set-entry agrees with the V4 / V6 list it ranges over, and definitions use the family of the advertisement", 8)
 	lines := ts.Lines("neighborfilters")
@@ -631,6 +641,11 @@ func c14Params(p *chk.Prog, r *chk.Report) {
 				}
 			}
 		}
+		if !ok && v == nil && src != nil {
+			// left out of the literal and set right after it on the object just built (`n = &neighborConfig{..}; if
+			// s.X != nil { n.k = f(*s.X) }`): in the same block as the literal's statement, before the object is used further
+			ok = c14SetAfterLiteral(f, lit, k, src)
+		}
 		x.Check("neighborConfig."+k, lit.Pos(), ok, "", "neighborConfig."+k+" is not filled from SessionParameters."+table[k])
 	}
 	// each neighbour is described from its own session only: nothing computed for an earlier session leaks in
@@ -699,11 +714,53 @@ func c14Families(p *chk.Prog, r *chk.Report) {
 	// its negation only the V6 set
 	cut4 := func(b *cfgBlock, k int) bool { return g.EdgeImplies(b, k, not4) } // the executions with family == IPv4
 	cut6 := func(b *cfgBlock, k int) bool { return g.EdgeImplies(b, k, is4) }
+	// where the sets live: the set whose sorted list ends up in the neighbour's field T (`n.T = sets.List(P.<path>)`);
+	// on the confirmed tree the path is the field T of the per-neighbour record itself
+	selPath := func(e ast.Expr) (*ast.Ident, []string) {
+		var path []string
+		for {
+			switch y := ast.Unparen(e).(type) {
+			case *ast.SelectorExpr:
+				path = append([]string{y.Sel.Name}, path...)
+				e = y.X
+			case *ast.UnaryExpr:
+				if y.Op != token.AND {
+					return nil, nil
+				}
+				e = y.X
+			case *ast.StarExpr:
+				e = y.X
+			case *ast.Ident:
+				return y, path
+			default:
+				return nil, nil
+			}
+		}
+	}
+	allSets := []string{"CommunitiesV4", "LargeCommunitiesV4", "LocalPrefsV4", "CommunitiesV6", "LargeCommunitiesV6", "LocalPrefsV6"}
+	pathOf := map[string]string{}
+	for _, set := range allSets {
+		pathOf[set] = set
+		for _, st := range g.Find(f.IsAssignPat("N."+set, "sets.List(S)")) {
+			call := ast.Unparen(st.Node.(*ast.AssignStmt).Rhs[0]).(*ast.CallExpr)
+			if _, path := selPath(call.Args[0]); len(path) > 0 {
+				pathOf[set] = strings.Join(path, ".")
+			}
+		}
+	}
+	directSites := map[string][]chk.Site{}
 	aliasSites := map[string][]chk.Site{}
 	for _, s := range g.FindPat("V.Insert(X)") {
-		id, isId := ast.Unparen(ast.Unparen(s.Node.(*ast.CallExpr).Fun).(*ast.SelectorExpr).X).(*ast.Ident)
-		if !isId {
+		id, rest := selPath(ast.Unparen(s.Node.(*ast.CallExpr).Fun).(*ast.SelectorExpr).X)
+		if id == nil {
 			continue
+		}
+		if len(rest) > 0 {
+			for _, set := range allSets {
+				if strings.Join(rest, ".") == pathOf[set] {
+					directSites[set] = append(directSites[set], s)
+				}
+			}
 		}
 		only := func(cut func(b *cfgBlock, k int) bool) string {
 			defs, entry := g.ReachingDefsUnder(id, s, cut)
@@ -716,11 +773,11 @@ func c14Families(p *chk.Prog, r *chk.Report) {
 				if !isAs || len(as.Lhs) != 1 || len(as.Rhs) != 1 {
 					return ""
 				}
-				se, isSel := ast.Unparen(as.Rhs[0]).(*ast.SelectorExpr)
-				if !isSel {
+				_, path := selPath(as.Rhs[0])
+				if len(path) == 0 {
 					return ""
 				}
-				sel := se.Sel.Name
+				sel := strings.Join(append(append([]string{}, path...), rest...), ".")
 				if name != "" && name != sel {
 					return ""
 				}
@@ -729,13 +786,18 @@ func c14Families(p *chk.Prog, r *chk.Report) {
 			return name
 		}
 		n4, n6 := only(cut4), only(cut6)
-		if strings.HasSuffix(n4, "V4") && n6 == strings.TrimSuffix(n4, "V4")+"V6" {
-			aliasSites[n4] = append(aliasSites[n4], s)
-			aliasSites[n6] = append(aliasSites[n6], s)
+		if n4 == "" || n6 == "" {
+			continue
+		}
+		for _, set := range allSets {
+			if strings.HasSuffix(set, "V4") && pathOf[set] == n4 && pathOf[strings.TrimSuffix(set, "V4")+"V6"] == n6 {
+				aliasSites[set] = append(aliasSites[set], s)
+				aliasSites[strings.TrimSuffix(set, "V4")+"V6"] = append(aliasSites[strings.TrimSuffix(set, "V4")+"V6"], s)
+			}
 		}
 	}
 	for _, set := range []string{"CommunitiesV4", "LargeCommunitiesV4", "LocalPrefsV4", "CommunitiesV6", "LargeCommunitiesV6", "LocalPrefsV6"} {
-		sites := g.FindPat("P." + set + ".Insert(V)")
+		sites := directSites[set]
 		x.Check(set+":insert-site", f.Pos(), len(sites)+len(aliasSites[set]) == 1, "", "expected one Insert into "+set)
 		for _, s := range aliasSites[set] {
 			x.OK(set+":by-prefix-family", s.Pos(), "through the local that holds the set of the advertisement's family")
@@ -762,7 +824,7 @@ func c14Families(p *chk.Prog, r *chk.Report) {
 		if strings.HasPrefix(set, "Large") {
 			want = isLarge
 		}
-		sites := append([]chk.Site{}, g.FindPat("P."+set+".Insert(V)")...)
+		sites := append([]chk.Site{}, directSites[set]...)
 		sites = append(sites, aliasSites[set]...)
 		for _, s := range sites {
 			okKind := g.Dominated(s, want)
@@ -1174,4 +1236,209 @@ func c14Keys(p *chk.Prog, r *chk.Report) {
 			x.Check(name+":uses:"+pv.Name(), f.Pos(), reach[pv], "", "the key built by "+name+" does not depend on its parameter "+pv.Name()+": configurations that differ only there are merged")
 		}
 	}
+}
+
+// c14SetAfterLiteral: the composite literal is assigned to a variable N (`N = &T{..}` / `N := T{..}`), and a later
+// statement of the same block, reached before any other statement mentions N, is `N.k = V` or `if C { N.k = V }` with V
+// reading the source field.
+func c14SetAfterLiteral(f *chk.Fn, lit *ast.CompositeLit, k string, src *types.Var) bool {
+	var as *ast.AssignStmt
+	for n := ast.Node(lit); n != nil; n = f.Prog.Parent(n) {
+		if a, ok := n.(*ast.AssignStmt); ok {
+			as = a
+			break
+		}
+		if _, isStmt := n.(ast.Stmt); isStmt {
+			break
+		}
+	}
+	if as == nil || len(as.Lhs) != 1 || len(as.Rhs) != 1 {
+		return false
+	}
+	obj := f.ObjOf(as.Lhs[0])
+	if obj == nil {
+		return false
+	}
+	var list []ast.Stmt
+	switch b := f.Prog.Parent(as).(type) {
+	case *ast.BlockStmt:
+		list = b.List
+	case *ast.CaseClause:
+		list = b.Body
+	default:
+		return false
+	}
+	after := false
+	sets := func(st ast.Stmt) bool {
+		a, ok := st.(*ast.AssignStmt)
+		if !ok || len(a.Lhs) != 1 || len(a.Rhs) != 1 || a.Tok != token.ASSIGN {
+			return false
+		}
+		se, ok := ast.Unparen(a.Lhs[0]).(*ast.SelectorExpr)
+		return ok && se.Sel.Name == k && f.ObjOf(se.X) == obj && f.MentionsField(a.Rhs[0], src)
+	}
+	fieldStore := func(st ast.Stmt) bool {
+		// a store into some field of N (the initialisation still going on), directly or behind a test that does not
+		// itself read N
+		var a *ast.AssignStmt
+		switch y := st.(type) {
+		case *ast.AssignStmt:
+			a = y
+		case *ast.IfStmt:
+			if y.Init == nil && y.Else == nil && len(y.Body.List) == 1 && !f.Mentions(y.Cond, obj) {
+				a, _ = y.Body.List[0].(*ast.AssignStmt)
+			}
+		}
+		if a == nil || len(a.Lhs) != 1 || len(a.Rhs) != 1 || a.Tok != token.ASSIGN {
+			return false
+		}
+		se, ok := ast.Unparen(a.Lhs[0]).(*ast.SelectorExpr)
+		return ok && f.ObjOf(se.X) == obj && !f.Mentions(a.Rhs[0], obj)
+	}
+	for _, st := range list {
+		if st == ast.Stmt(as) {
+			after = true
+			continue
+		}
+		if !after {
+			continue
+		}
+		if sets(st) {
+			return true
+		}
+		if ifs, ok := st.(*ast.IfStmt); ok && ifs.Init == nil && ifs.Else == nil && len(ifs.Body.List) == 1 && sets(ifs.Body.List[0]) && !f.Mentions(ifs.Cond, obj) {
+			return true
+		}
+		if fieldStore(st) {
+			continue
+		}
+		if f.Mentions(st, obj) {
+			return false // the object is used before the field is set
+		}
+	}
+	return false
+}
+
+// sessionKeyRule (C14 for internal/bgp/frr, C15 for internal/bgp/frrk8s): the session table is keyed by sessionName;
+// two sessions that differ in what identifies a neighbour must not share a key, or the second silently replaces the
+// first in the table the generator ranges over, and closing either removes the other.
+func sessionKeyRule(p *chk.Prog, r *chk.Report, pkg string) {
+	x := r.Rule("SESSION-KEY", "E sibling (field coverage) + B value flow", "sessionName(s) in "+pkg+" reads every identifying parameter of the session - PeerASN, DynamicASN, PeerAddress, PeerInterface, MyASN, SourceAddress, VRFName - and each of them reaches the returned string (directly, or through a local the format call takes)", 7)
+	f := need(x, p, pkg, "", "sessionName")
+	if f == nil {
+		return
+	}
+	g := f.Graph()
+	// the locals (and expressions) the returned strings are built from, transitively
+	feeds := map[types.Object]bool{}
+	var exprs []ast.Expr
+	for _, rt := range g.Returns() {
+		exprs = append(exprs, retResults(rt)...)
+	}
+	for changed := true; changed; {
+		changed = false
+		for _, e := range exprs {
+			ast.Inspect(e, func(n ast.Node) bool {
+				if id, ok := n.(*ast.Ident); ok {
+					if v, isVar := f.ObjOf(id).(*types.Var); isVar && !v.IsField() && !feeds[v] {
+						feeds[v] = true
+						changed = true
+						for _, as := range assignsTo(f, v) {
+							if a, isAs := as.(*ast.AssignStmt); isAs {
+								exprs = append(exprs, a.Rhs...)
+							}
+						}
+					}
+				}
+				return true
+			})
+		}
+	}
+	for _, name := range []string{"PeerASN", "DynamicASN", "PeerAddress", "PeerInterface", "MyASN", "SourceAddress", "VRFName"} {
+		fld := p.LookupField("internal/bgp", "SessionParameters", name)
+		if fld == nil {
+			x.Undecided("anchor:SessionParameters."+name, "UNDECIDED anchor missing: bgp.SessionParameters."+name)
+			continue
+		}
+		reaches := false
+		for _, e := range exprs {
+			if f.MentionsField(e, fld) {
+				reaches = true
+			}
+		}
+		// a field that only decides which value is used (`if s.PeerInterface != "" { peer = s.PeerInterface }`) is
+		// mentioned in the assignment it guards as well; one that is only tested still distinguishes the keys when the
+		// guarded assignment feeds the result
+		if !reaches {
+			ast.Inspect(f.Body, func(n ast.Node) bool {
+				ifs, ok := n.(*ast.IfStmt)
+				if !ok || !f.MentionsField(ifs.Cond, fld) {
+					return true
+				}
+				ast.Inspect(ifs.Body, func(m ast.Node) bool {
+					if as, isAs := m.(*ast.AssignStmt); isAs {
+						for _, l := range as.Lhs {
+							if v := f.ObjOf(l); v != nil && feeds[v] {
+								reaches = true
+							}
+						}
+					}
+					if _, isRet := m.(*ast.ReturnStmt); isRet {
+						reaches = true
+					}
+					return true
+				})
+				return true
+			})
+		}
+		x.Check("sessionName:"+name, f.Pos(), reaches, "", "the session key does not depend on "+name+": two sessions that differ only there share one entry of the session table - the second replaces the first, the generator never sees the first again, and closing either removes the other neighbour from the configuration")
+	}
+}
+
+// routerKeyRule (C14 for createConfig, C15 for updateConfig): sessions are grouped into routers by the triple that
+// identifies a router in FRR - router id, local ASN, VRF - the same values the router entry is created with.
+func routerKeyRule(p *chk.Prog, r *chk.Report, pkg, fn string) {
+	x := r.Rule("ROUTER-KEY", "B value flow", "in "+fn+" the key under which a session's router entry is looked up and stored is RouterName(s.RouterID.String(), s.MyASN, s.VRFName) of that session", 1)
+	f := need(x, p, pkg, "sessionManager", fn)
+	if f == nil {
+		return
+	}
+	g := f.Graph()
+	n := 0
+	for _, st := range g.Find(func(nd ast.Node) bool {
+		as, ok := nd.(*ast.AssignStmt)
+		if !ok || len(as.Lhs) != 1 || as.Tok != token.ASSIGN {
+			return false
+		}
+		ix, ok := ast.Unparen(as.Lhs[0]).(*ast.IndexExpr)
+		if !ok {
+			return false
+		}
+		mt, isMap := f.Info().TypeOf(ix.X).Underlying().(*types.Map)
+		if !isMap {
+			return false
+		}
+		pt, isPtr := mt.Elem().Underlying().(*types.Pointer)
+		if !isPtr {
+			return false
+		}
+		nt, isNamed := pt.Elem().(*types.Named)
+		return isNamed && nt.Obj().Name() == "router"
+	}) {
+		rs, _ := f.LoopOf(st.Node).(*ast.RangeStmt)
+		if rs == nil {
+			continue
+		}
+		n++
+		sess := rangeVal(f, rs)
+		key := ast.Unparen(st.Node.(*ast.AssignStmt).Lhs[0]).(*ast.IndexExpr).Index
+		okKey := false
+		for _, pat := range []string{"RouterName(S.RouterID.String(), S.MyASN, S.VRFName)", "frr.RouterName(S.RouterID.String(), S.MyASN, S.VRFName)"} {
+			if definedBy(g, pat, chk.H("S", sess))(key) {
+				okKey = true
+			}
+		}
+		x.Check(fn+":router-keyed-by-id-asn-vrf", st.Pos(), okKey, "", "the router entries are not keyed by the session's router id, local ASN and VRF: sessions of one router are split into several router blocks (each with part of the neighbours and prefixes), or sessions of different routers are merged into one whose id depends on map order")
+	}
+	x.Check(fn+":router-store", f.Pos(), n >= 1, "", "no store into the router table inside the session loop")
 }
